@@ -828,7 +828,7 @@ pub fn gen_case(tier: Tier, seed: u64, idx: u64) -> Case {
         _ => Target::Json,
     };
     let mut origin = Vec::new();
-    let pick = rng.below(15);
+    let pick = rng.below(16);
     // `!!binary` payloads go to the targets that decode them, validation documents to the validated struct
     let (target, fam) = match pick {
         12 => {
@@ -894,6 +894,30 @@ pub fn gen_case(tier: Tier, seed: u64, idx: u64) -> Case {
         }
     };
     let mut bytes = text.into_bytes();
+    if pick == 14 {
+        // a long input (beyond the 3 KiB window of recent bytes and often beyond the 8 KiB buffer) in which
+        // every line mixes invalid bytes with multi-byte text: whatever line an error window starts or ends
+        // in, its edges fall into such text
+        origin.push("noisy-lines".to_string());
+        const PIECES: [&[u8]; 14] = [
+            b"key", b": ", b"word ", b"# ", "é".as_bytes(), "日本".as_bytes(), "😀".as_bytes(), b"\xff", b"\xc3", b"\xe2\x82", b"\x80", b"\xf0\x9f",
+            b"[", b"\"",
+        ];
+        let lines = rng.range(60, 500);
+        // a valid head of random length, so that the first invalid byte lies anywhere relative to the window
+        let head = rng.below(40);
+        bytes.clear();
+        for i in 0..lines {
+            if i < head {
+                bytes.extend_from_slice(format!("k{i}: plain line é {i}\n").as_bytes());
+                continue;
+            }
+            for _ in 0..rng.range(1, 9) {
+                bytes.extend_from_slice(*rng.pick(&PIECES));
+            }
+            bytes.push(b'\n');
+        }
+    }
     if rng.chance(1, 25) {
         // UTF-16 input goes through the transcoding decoder
         let s = String::from_utf8_lossy(&bytes).to_string();
